@@ -1350,7 +1350,19 @@ pub fn run(ctx: &Ctx) -> Report {
     for (k, d, c) in sq.viol.iter().cloned() {
         r.violation(k, d, c);
     }
-    let seq_failed = !sq.viol.is_empty();
+    let mut seq_failed = !sq.viol.is_empty();
+    // two-hop packaging part (three-pool world of C17): the arrays of a leg through supplemental accounts / irrelevant extras
+    if !seq_failed {
+        let (n, packs, bad) = super::c17::packaging_part();
+        r.set("two_hop_variants_judged", n);
+        r.set("two_hop_packagings_compared", packs);
+        if let Some((k, d, c)) = bad {
+            r.violation(k, d, c);
+            seq_failed = true;
+        } else {
+            r.guard("two_hop_packagings_compared", packs);
+        }
+    }
     let t_main = ctx.elapsed();
     let hard = (ctx.budget_s - t_main).min(ctx.pick((24.0 - t_main).max(12.0), 470.0));
     // small worlds first; each world may run until its cumulative share of the wall budget is used up (slack is passed on)
@@ -1488,6 +1500,9 @@ fn parse_start(s: &str) -> Option<Start> {
 pub fn replay(case: &Value) -> Result<(), String> {
     if case["part"].as_str() == Some("seq") {
         return seq::replay(case);
+    }
+    if case["kind"].as_str() == Some("twohop_packaging") {
+        return super::c17::replay_packaging(case);
     }
     let name = case["world"].as_str().ok_or("world")?;
     let spec = specs().into_iter().find(|s| s.name == name).ok_or("unknown world")?;
